@@ -26,13 +26,15 @@ T0 = 1_000_000_000            # explicit file times start here (2001-09-09), one
 
 # --------------------------------------------------------------------------- schemes
 NAME_SCHEMES = {
-    # abstract name -> concrete bytes; names not listed map to themselves
-    "plain": {},
-    "quote": {"a": b"a b", "d": b'd"q', "b": b"b\tt", "c": b"c\nn", "x": b"'x'", "e": b"e*?[e]", "s": b"s\\s", "f": b" f ", "g": b"g#;"},
-    "utf8": {"a": "ä".encode(), "d": "日本".encode(), "b": "é".encode(), "c": "\U0001f600".encode(),
-             "x": "ß".encode(), "e": "é".encode(), "s": "ф".encode(), "f": "א".encode(), "g": "ñ".encode()},
-    "nonutf8": {"a": b"\xff\xfea", "d": b"d\x80", "b": b"\xe9", "c": b"c\xc3", "x": b"\xa0x", "e": b"\xfce", "s": b"s\xf8", "f": b"\xed\xa0\x80", "g": b"\x81"},
-    "dashdot": {"a": b"-a", "d": b".d", "b": b"--", "c": b".gitx", "x": b"..x", "e": b"e.lock", "s": b"-s", "f": b"...f", "g": b"@{g}"},
+    # abstract name -> concrete bytes; names not listed map to themselves.  In every scheme the name
+    # of g extends the name of a by a byte that sorts before '/': "a" is a string prefix of a
+    # sibling, and the sibling sorts between the file "a" and the directory "a/".
+    "plain": {"g": b"a-g"},
+    "quote": {"a": b"a b", "d": b'd"q', "b": b"b\tt", "c": b"c\nn", "x": b"'x'", "e": b"e*?[e]", "s": b"s\\s", "f": b" f ", "g": b"a b#;"},
+    "utf8": {"a": "ä".encode(), "d": "日本".encode(), "b": "é".encode(), "c": "\U0001f600".encode(),
+             "x": "ß".encode(), "e": "ê".encode(), "s": "ф".encode(), "f": "א".encode(), "g": "ä ñ".encode()},
+    "nonutf8": {"a": b"\xff\xfea", "d": b"d\x80", "b": b"\xe9", "c": b"c\xc3", "x": b"\xa0x", "e": b"\xfce", "s": b"s\xf8", "f": b"\xed\xa0\x80", "g": b"\xff\xfea\x81"},
+    "dashdot": {"a": b"-a", "d": b".d", "b": b"--", "c": b".gitx", "x": b"..x", "e": b"e.lock", "s": b"-s", "f": b"...f", "g": b"-a.@{g}"},
 }
 
 
